@@ -147,9 +147,14 @@ impl Builtins {
                                 pos.clone(),
                             )
                         })?;
+                        // The file is on the import stack for as long as it is being
+                        // evaluated, so that an import chain leading back to it is
+                        // reported as a cycle instead of recursing.
+                        let mut in_progress = import_stack.clone();
+                        in_progress.push(path.clone());
                         let mut vm =
                             VM::with_pointer(self.strict, op_pointer, base_path)
-                                .with_import_stack(import_stack.clone());
+                                .with_import_stack(in_progress);
                         vm.run(env)?;
                         let result = Rc::new(vm.symbols_to_tuple(true));
                         env.borrow_mut()
